@@ -99,7 +99,7 @@ class C05(Prop):
         p_items = [["P%d" % i, "", "%d" % (40 + i), "tag P#%d" % i] for i in range(n_p)]
         if steer and g.random() < 0.7:
             p_items.insert(g.randint(0, len(p_items)), list(g.choice(STEER)))
-        o_text = ["tag O#%d free text with 1 2 3" % i for i in range(g.randint(0, 3))]
+        o_text = [("# " if g.random() < 0.25 else "") + "tag O#%d free text with 1 2 3" % i for i in range(g.randint(0, 4))]
         pool = [{"kind": "W", "title": title("W"), "items": w_items}, {"kind": "C", "title": title("C"), "items": c_items},
                 {"kind": "P", "title": title("P"), "items": p_items}, {"kind": "O", "title": title("O"), "text": o_text}]
         ctitles = g.sample(CUSTOM, g.choice([0, 0, 1, 1, 2, 3]))
